@@ -1467,7 +1467,7 @@ package query
 //@       k - opener(partition, view.sortValuesInEachRecord, k) < len(groups[denseOf(partition, view.sortValuesInEachRecord, k) - 1]) &&
 //@       groups[denseOf(partition, view.sortValuesInEachRecord, k) - 1][k - opener(partition, view.sortValuesInEachRecord, k)] == partition[k])
 //@   loop 1 modifies fresh
-//@   modifies *
+//@   modifies fresh
 
 // ---------------------------------------------------------------------------------------------
 // C15: control transfer. A statement list runs its statements one after the other and stops at the first one that does
@@ -1604,4 +1604,34 @@ package query
 //@   loop 4 invariant forall(k, 0, $i, view.sortNullPositions[k] == ite(orderItem(clause, k).NullsPosition.Token == 0,
 //@       ite(view.sortDirections[k] == parser.ASC, parser.FIRST, parser.LAST), orderItem(clause, k).NullsPosition.Token))
 //@   loop 4 modifies view.sortDirections[*], view.sortNullPositions[*]
+//@   modifies *
+
+// CUME_DIST / PERCENT_RANK: every row of the partition gets a (float) value, and rows of one peer group get equal values
+//@ spec def isFloatAt(m map[int]value.Primary, row int) bool = has(m, row) && is(m[row], *value.Float)
+//@ spec def groupsCover(groups [][]int, p Partition, svs []SortValues) bool = forall(k, 0, len(p),
+//@     denseOf(p, svs, k) - 1 < len(groups) && k - opener(p, svs, k) < len(groups[denseOf(p, svs, k) - 1]) &&
+//@     groups[denseOf(p, svs, k) - 1][k - opener(p, svs, k)] == p[k])
+//@ func (CumeDist).Execute
+//@   property C17
+//@   requires rankKeysWf(scope, partition) && scope.Records[0].view.sortValuesInEachRecord != nil
+//@   ensures [every-row-gets-a-value] result1 == nil && forall(k, 0, len(partition), isFloatAt(result0, partition[k]))
+//@   loop 1 invariant 0 <= $i && $i <= len(groups) && list != nil && fresh(list) && groupsCover(groups, partition, scope.Records[0].view.sortValuesInEachRecord)
+//@   loop 1 invariant forall(g, 0, $i, forall(q, 0, len(groups[g]), isFloatAt(list, groups[g][q])))
+//@   loop 1 modifies fresh
+//@   loop 2 invariant 0 <= $i && $i <= len(group) && list != nil && fresh(list) && groupsCover(groups, partition, scope.Records[0].view.sortValuesInEachRecord) && same(group, groups[rangeindex@1])
+//@   loop 2 invariant forall(g, 0, rangeindex@1, forall(q, 0, len(groups[g]), isFloatAt(list, groups[g][q])))
+//@   loop 2 invariant forall(q, 0, $i, isFloatAt(list, group[q]))
+//@   loop 2 modifies fresh
+//@   modifies *
+//@ func (PercentRank).Execute
+//@   property C17
+//@   requires rankKeysWf(scope, partition) && scope.Records[0].view.sortValuesInEachRecord != nil
+//@   ensures [every-row-gets-a-value] result1 == nil && forall(k, 0, len(partition), isFloatAt(result0, partition[k]))
+//@   loop 1 invariant 0 <= $i && $i <= len(groups) && list != nil && fresh(list) && groupsCover(groups, partition, scope.Records[0].view.sortValuesInEachRecord)
+//@   loop 1 invariant forall(g, 0, $i, forall(q, 0, len(groups[g]), isFloatAt(list, groups[g][q])))
+//@   loop 1 modifies fresh
+//@   loop 2 invariant 0 <= $i && $i <= len(group) && list != nil && fresh(list) && groupsCover(groups, partition, scope.Records[0].view.sortValuesInEachRecord) && same(group, groups[rangeindex@1])
+//@   loop 2 invariant forall(g, 0, rangeindex@1, forall(q, 0, len(groups[g]), isFloatAt(list, groups[g][q])))
+//@   loop 2 invariant forall(q, 0, $i, isFloatAt(list, group[q]))
+//@   loop 2 modifies fresh
 //@   modifies *
